@@ -411,9 +411,10 @@ class DSession:
         rep: pytest.CollectReport | pytest.TestReport,
     ) -> None:
         # Check we haven't already seen this report (from
-        # another worker). Every worker sends its own longrepr object, so
-        # compare what they say.
-        key = str(rep.longrepr)
+        # another worker). Every worker sends its own longrepr, whose text
+        # can differ between processes (ids, addresses, environment), so
+        # go by the collector that failed.
+        key = rep.nodeid
         if key not in self._failed_collection_errors:
             self._failed_collection_errors[key] = True
             self.config.hook.pytest_collectreport(report=rep)
